@@ -1,7 +1,7 @@
 """cnvlib/descriptives.py and cnvlib/smoothing.py constants -> Generated/DescConsts.lean (property C19)"""
 import ast
 import os
-from ..translate import parse, find_func, func_defaults, rat
+from ..translate import seg as _seg, parse, find_func, func_defaults, rat
 
 NAME = "DescConsts"
 
@@ -45,7 +45,7 @@ def _percentile_args(fn):
 
 def extract(repo, o):
     tree, src = parse(os.path.join(repo, "cnvlib/descriptives.py"))
-    seg = lambda n: ast.get_source_segment(src, n)
+    seg = lambda n: _seg(src, n)
 
     fn = find_func(tree, "biweight_location")
     for nm, key in (("BILOC_C", "c"), ("BILOC_EPS", "epsilon")):
